@@ -248,7 +248,7 @@ CHECKS = {
             IDENTITY_RULE_GENERAL,
         ],
         "uncovered": [
-            "row order independence (needs uniqueness of the solution, not derived)",
+            "row order independence and uniqueness are proved for the square non-singular case only; for least squares (normal equations) uniqueness is not derived",
             "floating point conditioning (`well-conditioned`) is outside a real-number contract",
             "NaN entries are outside the real-number model (the abort they caused in argabsmax was a genuine defect, repaired: fix 234b13e, replayed under C20)",
         ],
